@@ -25,6 +25,8 @@ pub enum Attack {
     Forced { edits: Vec<(u16, Fe)>, alter_pi: bool },
     /// forced, with a raw family row that has one component broken
     ForcedFamily { fam: u8, violate: u8, sel_val: Fe, xor: bool, r: Vec<Fe> },
+    /// forced, every row satisfied but one compiled copy constraint broken
+    ForcedDrift { a: Fe, b: Fe },
     /// independent malicious prover: violating assignment, remainder dropped
     RefDropRemainder { edits: Vec<(u16, Fe)> },
     /// arbitrary grand product / quotient and one evaluation solved so that
@@ -53,6 +55,7 @@ fn case_strategy(_t: Tier) -> BoxedStrategy<Case> {
         4 => (edits(), any::<bool>()).prop_map(|(edits, alter_pi)| Attack::Forced { edits, alter_pi }),
         4 => (1u8..5, 0u8..5, prop_oneof![Just(Fe(F::one())), Just(Fe(-F::one()))], any::<bool>(), proptest::collection::vec(fe_random(), 12))
             .prop_map(|(fam, violate, sel_val, xor, r)| Attack::ForcedFamily { fam, violate, sel_val, xor, r }),
+        3 => (fe_any(), fe_any()).prop_map(|(a, b)| Attack::ForcedDrift { a, b }),
         3 => edits().prop_map(|edits| Attack::RefDropRemainder { edits }),
         6 => (any::<bool>(), any::<bool>(), 0u8..15, edits())
             .prop_map(|(random_z, random_t, eval, edits)| Attack::RefSolved { random_z, random_t, eval, edits }),
@@ -78,6 +81,32 @@ fn check(ctx: &Ctx, c: &Case) -> PResult {
             pi: match pi { None => Pi::None, Some(p) => Pi::Val(Fe(p)) },
         });
         fam_class = format!(" fam{}", fam % 5);
+    }
+    // copy-constraint break: a constant-pinned witness also sits on an
+    // unconstrained wire of a final gate; the instance puts another witness there
+    let mut drift_instance: Option<Arc<Program>> = None;
+    if let Attack::ForcedDrift { a, b } = &c.attack {
+        if a == b {
+            ctx.excluded("drift with equal values");
+            return Ok(());
+        }
+        let zero = Fe(F::zero());
+        ops.push(Op::Const(*a));
+        ops.push(Op::Wit(*b));
+        ops.push(Op::Gate { q: [zero; 5], qc: zero, w: [0, 0, 0, 0], pi: Pi::None });
+        let (_, tr) = prog::build(&Program::solved(ops.clone())).map_err(|e| Fail::new("honest-build-error", format!("{e:?}")))?;
+        let handles = tr.wits.len();
+        let pick_for = |i: usize| -> u16 { (((i as u64) << 16).div_ceil(handles as u64)) as u16 };
+        let last = ops.len() - 1;
+        let mut inst_ops = ops.clone();
+        if let Op::Gate { w, .. } = &mut ops[last] {
+            w[0] = pick_for(handles - 2);
+        }
+        if let Op::Gate { w, .. } = &mut inst_ops[last] {
+            w[0] = pick_for(handles - 1);
+        }
+        drift_instance = Some(Arc::new(Program::solved(inst_ops)));
+        fam_class = " copy-constraint".to_string();
     }
     let program = Arc::new(Program::solved(ops));
     let (composer, _) = prog::build(&program).map_err(|e| Fail::new("honest-build-error", format!("{e:?}")))?;
@@ -111,18 +140,23 @@ fn check(ctx: &Ctx, c: &Case) -> PResult {
     };
 
     match &c.attack {
-        Attack::Forced { .. } | Attack::ForcedFamily { .. } => {
+        Attack::Forced { .. } | Attack::ForcedFamily { .. } | Attack::ForcedDrift { .. } => {
             let (ov, w) = match &c.attack {
                 Attack::Forced { edits, .. } => assignment(edits),
                 _ => (Vec::new(), snap.witnesses.clone()),
             };
-            if !unsat_of(&w) {
+            if drift_instance.is_none() && !unsat_of(&w) {
                 ctx.excluded("assignment happens to satisfy the circuit");
                 return Ok(());
             }
-            let mut inst = (*program).clone();
-            inst.overrides = ov;
-            let inst = Arc::new(inst);
+            let inst = match &drift_instance {
+                Some(d) => d.clone(),
+                None => {
+                    let mut inst = (*program).clone();
+                    inst.overrides = ov;
+                    Arc::new(inst)
+                }
+            };
             dusk_plonk::verif::set_force(true);
             let r = no_panic("forced-prove-panic", || sys::prove(&prover, &inst, c.seed));
             dusk_plonk::verif::set_force(false);
@@ -258,7 +292,7 @@ fn check(ctx: &Ctx, c: &Case) -> PResult {
 }
 
 pub fn props() -> Vec<(Box<dyn PropDyn>, u32, u32)> {
-    vec![(Box::new(Prop::new("sound", case_strategy, check).shrink(80)), 640, 20000)]
+    vec![(Box::new(Prop::new("sound", case_strategy, check).shrink(80)), 1600, 30000)]
 }
 
 pub fn describe(ctx: &Ctx) {
